@@ -451,6 +451,8 @@ class SR:
             if b.root is not None and c > 0:
                 r.root = b.root * (c * c)
             return r
+        if a.root is not None and b.root is not None and (a is b or a.key() == b.key()):
+            return a.root            # sqrt(X) * sqrt(X) = X
         if a.d or b.d:
             d = dict(a.d)
             for k, e in b.d.items():
@@ -1121,7 +1123,7 @@ def trig(x: SR):
     """(cos x, sin x) through the structural cache (DESIGN 1.2)"""
     if isinstance(x, SAngle):
         return x.c, x.s
-    x = lift_strict(x)
+    x = _canon_arg(lift_strict(x))
     if x.is_const():
         c = x.cval()
         if c == 0:
@@ -1172,8 +1174,17 @@ _FN_FE = {
 }
 
 
+def _canon_arg(x: SR) -> SR:
+    """canonical form of a function argument: even powers of square-root symbols replaced by their radicands"""
+    if P.SQUARE_RULES and x.n:
+        red = P.p_reduce(x.n)
+        if red is not x.n:
+            return SR.mk(red, dict(x.d)) if red else ZERO()
+    return x
+
+
 def fn_atom(fn: str, x: SR) -> SR:
-    x = lift_strict(x)
+    x = _canon_arg(lift_strict(x))
     if x.is_const():
         c = x.cval()
         if fn == "exp" and c == 0:
